@@ -167,6 +167,42 @@ def run_case(case, workdir):
             pp = oracle.parse_output(rec, sub, out)
             if pp is not None:
                 oracle.compare_contents(rec, sub, pp, refn.strain(sel, None))
+    if len(names) >= 2 and len(set(names)) == len(names):
+        # history: ANOTHER request into the output path that the run above filled (an output that already exists)
+        out = os.path.join(workdir, "out_twice")
+        if os.path.isdir(out):
+            sel2 = [names[0]]
+            with vpool.controlled():
+                st, val = call(lambda: Colander(plotfile=path, limit_level=0, output=out, variables=sel2).strain())
+            rec.exe([dh, "existing_output"], nontrivial=True, trans=2)
+            sub = {"history": "output directory already holds the result of another request", "variables": sel2, "limit_level": 0}
+            if st == "exc":
+                rec.fail("history_raised", sub, exc_text(val))
+            else:
+                pp = oracle.parse_output(rec, sub, out)
+                if pp is not None:
+                    oracle.compare_contents(rec, sub, pp, refn.strain(sel2, 0))
+                    oracle.taste_accepts(rec, sub, out)
+        # history: the caller's request list (with a name that an earlier plotfile lacks) used for a later plotfile that has it
+        d2 = dict(desc, fields=list(desc["fields"]) + ["late_field"], seed=desc.get("seed", 0) + 9)
+        if isinstance(desc.get("payload"), list):
+            d2["payload"] = list(desc["payload"]) + ["coded"]
+        path2, ref2 = build(d2, workdir, "plt00001")
+        request = ["late_field", names[0]]
+        with vpool.controlled():
+            def series():
+                Colander(plotfile=path, limit_level=None, output=os.path.join(workdir, "out_s1"), variables=request).strain()
+                Colander(plotfile=path2, limit_level=None, output=os.path.join(workdir, "out_s2"), variables=request).strain()
+            st, val = call(series)
+        rec.exe([dh, "request_list_reused"], nontrivial=True, trans=2)
+        sub = {"history": "one request list object used for two plotfiles, the first lacks a requested field", "variables": ["late_field", names[0]],
+               "list_now": [str(x) for x in request]}
+        if st == "exc":
+            rec.fail("history_raised", sub, exc_text(val))
+        else:
+            pp = oracle.parse_output(rec, sub, os.path.join(workdir, "out_s2"))
+            if pp is not None:
+                oracle.compare_contents(rec, sub, pp, ref2.strain(["late_field", names[0]], None))
     if tree_digest(path) != before:
         rec.fail("input_modified", {}, "input plotfile changed")
     rec.sample({"desc": desc, "ops": "strain(variables, limit) over all ordered selections and limits"})
